@@ -115,6 +115,10 @@ def gen_cases(rng, tier, scale):
         srcs.append((mutate(rng, t), 'mutation'))
         if rng.random() < 0.3:
             srcs.append((mutate(rng, mutate(rng, t)), 'mutation2'))
+    for wch in ('\u00a0', '\u2003', '\u3000', '\u2028', 'é\u00a0 ', ' \u3000\n\u00a0'):
+        for tg in ('{{~a}}', '{{~#if a}}y{{/if}}', '{{#if a}}y{{~/if}}', '{{#if a}}y{{~else}}n{{/if}}', '{{~> p}}', '{{~{a}}}', '{{{{~raw}}}}r{{{{/raw}}}}'):
+            srcs.append((wch + tg, 'unicode-ws-before-tilde'))
+            srcs.append(('x' + wch + tg + wch + 'y', 'unicode-ws-before-tilde'))
     for c in COMMENTS:
         for ctx in ('%s', 'a %s b', '{{#if a}}\n  %s\n{{/if}}', '{{x~}} %s {{~y}}'):
             srcs.append((ctx % c, 'comment'))
